@@ -1,8 +1,8 @@
-(* C19 — proofs about Validate.v: for every class X
+(* C19 — proofs about Validate.v (the model of the current, repaired code): for every class X
      validate_sound_X     validate_X i = RaiseValueError -> in_domain_X i = false
-     validate_complete_X  in_domain_X i = false -> deviates_X i = false -> validate_X i = RaiseValueError
+     validate_complete_X  in_domain_X i = false -> [deviates_X i = false ->] validate_X i = RaiseValueError
      accepts_domain_X     in_domain_X i = true -> has_live i = true -> (class specific side conditions) -> validate_X i = Accept
-   and concrete [_refuted] witnesses for every disjunct of deviates_X. *)
+   [deviates_X] names exactly the deviations that are still open; where none is left the theorem is unconditional. *)
 From Coq Require Import List Bool ZArith QArith Arith Lia.
 Import ListNotations.
 From FP Require Import Validate.
@@ -80,25 +80,6 @@ Proof.
   - split; [discriminate|]. intros H. apply andb_prop in H as [_ H]. apply IH in H. discriminate.
 Qed.
 
-Lemma greedy_items_good l : forallb (item_good IPair) l = true -> greedy_items l = None.
-Proof.
-  induction l as [|a l IH]; cbn; [reflexivity|]. unfold item_good at 1.
-  intros H. apply andb_prop in H as [H1 H2]. apply andb_prop in H1 as [K G].
-  apply kind_eqb_eq in K. rewrite K, G. auto.
-Qed.
-Lemma greedy_scan_wf cs : cons_wf_kind IPair cs = true -> greedy_scan cs = None.
-Proof.
-  unfold cons_wf_kind. induction cs as [|c r IH]; cbn; [reflexivity|].
-  intros H. apply andb_prop in H as [H1 H2]. apply andb_prop in H1 as [_ H1].
-  rewrite (greedy_items_good _ H1). destruct (c_greedy_ok c); auto.
-Qed.
-Lemma greedy_items_expanded (l : list item) : greedy_items (map (fun _ => good_item) l) = None.
-Proof. induction l; cbn; auto. Qed.
-Lemma greedy_scan_expanded cs : greedy_scan (expanded cs) = None.
-Proof.
-  induction cs as [|c r IH]; cbn; [reflexivity|]. rewrite greedy_items_expanded. destruct (c_greedy_ok c); auto.
-Qed.
-
 (* expanded constraints: only emptiness survives *)
 Lemma check_each_expanded cs :
   check_each (expanded cs) = None <-> forallb (fun c => negb (is_nil (c_items c))) cs = true.
@@ -142,6 +123,9 @@ Proof.
 Qed.
 
 (* node mode: the expansion succeeds and the expanded constraints pass the check  <->  documented shape *)
+Lemma nonempty_existsb cs :
+  existsb (fun c => is_nil (c_items c)) cs = negb (forallb (fun c => negb (is_nil (c_items c))) cs).
+Proof. induction cs as [|c r IH]; cbn; auto. rewrite IH. destruct (is_nil (c_items c)); reflexivity. Qed.
 Lemma expand_ok_iff cs :
   (expand_cons cs = None /\ check_cons (expanded cs) = None) <->
   cons_wf_kind IStr cs || cons_wf_kind IPair cs = true.
@@ -161,12 +145,11 @@ Proof.
                | IPair | ITriple => first_bad_edge_item (all_items (c0 :: r))
                | IInt => Some VE
                end).
-  { unfold expand_cons. unfold guard at 1. unfold seq. rewrite L. cbn [negb]. rewrite I0. reflexivity. }
+  { unfold expand_cons. unfold guard at 1 2. unfold seq. rewrite L, nonempty_existsb, NE. cbn [negb]. rewrite I0. reflexivity. }
   rewrite EX, A0. set (rest := l0 ++ all_items r). clear EX A0.
   assert (GS : forall kd, item_good kd it0 = kind_eqb (it_kind it0) kd && it_in_graph it0) by reflexivity.
   destruct (it_kind it0) eqn:K0.
-  - (* a list of nodes *)
-    unfold guard. cbn [forallb]. rewrite !GS. cbn [kind_eqb andb orb].
+  - unfold guard. cbn [forallb]. rewrite !GS. cbn [kind_eqb andb orb].
     rewrite orb_false_r.
     destruct (it_in_graph it0 && forallb (item_good IStr) rest); cbn; (split; intro H; [try (destruct H as [H _]; discriminate); reflexivity | try discriminate; auto]).
   - rewrite first_bad_none. cbn [forallb]. rewrite !GS. cbn [kind_eqb andb orb].
@@ -183,11 +166,12 @@ Proof.
   destruct (it_kind a); try (intros [= <-]; auto).
   destruct (it_in_graph a); [exact IH|intros [= <-]; auto].
 Qed.
-Lemma expand_outcomes cs o : expand_cons cs = Some o -> o = VE \/ o = RaiseOther EIndex \/ o = RaiseOther EType.
+Lemma expand_outcomes cs o : expand_cons cs = Some o -> o = VE \/ o = RaiseOther EType.
 Proof.
   unfold expand_cons, guard, seq. destruct (forallb c_is_list cs); cbn; [|intros [= <-]; auto].
+  destruct (existsb _ cs); [intros [= <-]; auto|].
   destruct cs as [|c0 r]; [discriminate|].
-  destruct (c_items c0) as [|it0 l0]; [intros [= <-]; auto|].
+  destruct (c_items c0) as [|it0 l0]; [discriminate|].
   destruct (it_kind it0).
   - destruct (forallb _ _); cbn; [discriminate|intros [= <-]; auto].
   - intros H. apply first_bad_outcomes in H as [->| ->]; auto.
@@ -195,20 +179,13 @@ Proof.
   - intros [= <-]; auto.
 Qed.
 
-(* the two "non-ValueError" deviations of the constraint handling, as predicates of the model itself *)
+(* the one constraint deviation that is still OPEN: in node mode an edge-list constraint with a non-iterable item
+   makes `edge not in G.edges` raise TypeError (finding NodeExpandedDiGraph...:TypeError:non-tuple-item) *)
 Definition dev_expand (i : input) : bool :=
   match origin i with
   | ONode => match expand_cons (cons i) with Some (RaiseOther _) => true | _ => false end
   | _ => false
   end.
-Definition dev_greedy (i : input) : bool :=
-  ign_internal_empty i && conserving i &&
-  match greedy_scan (internal_cons i) with Some (RaiseOther _) => true | _ => false end.
-Definition dev_cov (i : input) : bool := is_nil (cons i) && negb (cov_ok i).
-Definition dev_k_nonint (i : input) : bool := negb (k_is_int i).
-Definition dev_k_le0 (i : input) : bool := k_le0 i.
-Definition dev_fooled (i : input) : bool :=
-  match origin i with ONode => false | _ => (negb (has_source i) && src_fooled i) || (negb (has_sink i) && snk_fooled i) end.
 
 (* internal constraints pass the check  <->  documented shape (given a successful expansion in node mode) *)
 Lemma cons_ok_edge i : origin i <> ONode -> (check_cons (internal_cons i) = None <-> cons_wf i = true).
@@ -259,7 +236,7 @@ Ltac unfold_all :=
     validate_MinErrorFlow, validate_kFlowDecompCycles, validate_kLeastAbsErrorsCycles, validate_kMinPathErrorCycles,
     validate_kErrCycles, validate_kPathCoverCycles, validate_MinPathCoverCycles, validate_MinFlowDecompCycles,
     mfd_solve, kfd_core, kfdc_core, front_cover, front, front_node, front_edge, front_cover, v_stdag, v_stdigraph, v_ssg_common, v_nodeexp,
-    v_maxflow, v_pathmodel, v_walkmodel, v_walkmodel_k, v_fooled, st_of, en_of, VE in *.
+    v_maxflow, v_pathmodel, v_walkmodel, v_walkmodel_k, k_bad, st_of, en_of, no_src, no_snk, VE in *.
 Ltac unfold_dom :=
   unfold in_domain_stDAG, in_domain_stDiGraph, in_domain_NodeExpandedDiGraph, in_domain_kFlowDecomp, in_domain_MinFlowDecomp,
     in_domain_kMinPathError, in_domain_kLeastAbsErrors, in_domain_kErrDAG, in_domain_kPathCover, in_domain_MinPathCover,
@@ -281,44 +258,29 @@ Qed.
 Theorem accepts_domain_stDAG i : in_domain_stDAG i = true -> validate_stDAG i = Accept.
 Proof. intros D. unfold_dom. norm_hyps. unfold_all. rw_goal. reflexivity. Qed.
 
-Ltac dsrc i :=
-  destruct (has_source i), (has_sink i), (is_nil (starts i)), (is_nil (ends i)), (src_fooled i), (snk_fooled i);
-  bsimp; try discriminate; try reflexivity.
-
 (* ================================================================== stDiGraph *)
-Definition deviates_stDiGraph (i : input) := fooled i (starts i) (ends i).
 Theorem validate_sound_stDiGraph i : validate_stDiGraph i = RaiseValueError -> in_domain_stDiGraph i = false.
 Proof.
   intros H. destruct (in_domain_stDiGraph i) eqn:D; [exfalso|reflexivity].
-  unfold_dom. norm_hyps. unfold_all. unfold no_src, no_snk in *. rw_in H. bsimp.
-  destruct (origin i); dsrc i.
+  unfold_dom. norm_hyps. unfold_all. rw_in H. bsimp.
+  destruct (has_source i), (has_sink i), (is_nil (starts i)), (is_nil (ends i)); bsimp; discriminate.
 Qed.
-Theorem validate_complete_stDiGraph i :
-  in_domain_stDiGraph i = false -> deviates_stDiGraph i = false -> validate_stDiGraph i = RaiseValueError.
+Theorem validate_complete_stDiGraph i : in_domain_stDiGraph i = false -> validate_stDiGraph i = RaiseValueError.
 Proof.
-  intros D V. unfold_all. walk ltac:(reflexivity).
-  exfalso. unfold deviates_stDiGraph, fooled, no_src, no_snk in *. unfold_dom. norm_hyps. rw_in D. bsimp.
-  destruct (origin i); dsrc i.
+  intros D. unfold_all. walk ltac:(reflexivity).
+  exfalso. unfold_dom. norm_hyps. rw_in D. bsimp.
+  destruct (has_source i), (has_sink i), (is_nil (starts i)), (is_nil (ends i)); bsimp; discriminate.
 Qed.
 Theorem accepts_domain_stDiGraph i : in_domain_stDiGraph i = true -> validate_stDiGraph i = Accept.
 Proof.
-  intros D. unfold_dom. norm_hyps. unfold_all. unfold no_src, no_snk. rw_goal. bsimp.
-  destruct (origin i); dsrc i.
+  intros D. unfold_dom. norm_hyps. unfold_all. rw_goal. bsimp.
+  destruct (has_source i), (has_sink i), (is_nil (starts i)), (is_nil (ends i)); bsimp; try discriminate; reflexivity.
 Qed.
-(* DESIGN #20: a graph without source whose node is called "s" passes stDiGraph *)
 Definition ex_graph : input :=
   {| nodes_str := [true; true]; n_edges := 2; acyclic := false; has_source := true; has_sink := true;
-     src_fooled := false; snk_fooled := false; origin := OEdge; wtype := TFloat;
+     origin := OEdge; wtype := TFloat;
      elems := [ {| e_w := WPos; e_ign := false |}; {| e_w := WPos; e_ign := false |} ];
      conserving := true; k := KInt 2; cons := []; cov := 1%Q; starts := []; ends := []; ign := []; search_enters := true |}.
-Definition with_nosource (i : input) (fool : bool) : input :=
-  {| nodes_str := nodes_str i; n_edges := n_edges i; acyclic := acyclic i; has_source := false; has_sink := has_sink i;
-     src_fooled := fool; snk_fooled := snk_fooled i; origin := origin i; wtype := wtype i; elems := elems i;
-     conserving := conserving i; k := k i; cons := cons i; cov := cov i; starts := starts i; ends := ends i; ign := ign i;
-     search_enters := search_enters i |}.
-Theorem validate_stDiGraph_refuted :
-  exists i, in_domain_stDiGraph i = false /\ validate_stDiGraph i = Accept.
-Proof. exists (with_nosource ex_graph true). vm_compute. auto. Qed.
 
 (* ================================================================== NodeExpandedDiGraph *)
 Theorem validate_sound_NodeExpandedDiGraph i :
@@ -374,18 +336,11 @@ Lemma eqb0_false n : negb (Nat.eqb n 0) = true -> Nat.eqb n 0 = false.
 Proof. destruct n; cbn; auto; discriminate. Qed.
 
 (* facts that follow from  cons_wf i = true  for the two modes *)
-Lemma wf_edge_facts i : origin i <> ONode -> cons_wf i = true ->
-  check_cons (internal_cons i) = None /\ greedy_scan (internal_cons i) = None.
-Proof.
-  intros O W. split; [apply cons_ok_edge; auto|].
-  unfold internal_cons, cons_wf in *. destruct (origin i); try congruence; apply greedy_scan_wf; auto.
-Qed.
+Lemma wf_edge_facts i : origin i <> ONode -> cons_wf i = true -> check_cons (internal_cons i) = None.
+Proof. intros O W. apply cons_ok_edge; auto. Qed.
 Lemma wf_node_facts i : origin i = ONode -> cons_wf i = true ->
-  expand_cons (cons i) = None /\ check_cons (internal_cons i) = None /\ greedy_scan (internal_cons i) = None.
-Proof.
-  intros O W. apply cons_ok_node in W as [W1 W2]; auto. repeat split; auto.
-  unfold internal_cons. rewrite O. apply greedy_scan_expanded.
-Qed.
+  expand_cons (cons i) = None /\ check_cons (internal_cons i) = None.
+Proof. intros O W. apply cons_ok_node in W as [W1 W2]; auto. Qed.
 Lemma k_pos_facts i : k_pos_int i = true -> k_is_int i = true /\ k_le0 i = false.
 Proof.
   unfold k_pos_int, k_is_int, k_le0. destruct (k i); [|discriminate].
@@ -397,35 +352,19 @@ Proof.
   intros _ H. apply Z.leb_gt in H. apply Z.ltb_lt. exact H.
 Qed.
 
-(* ================================================================== kFlowDecomp *)
-Definition deviates_kFlowDecomp (i : input) := all_ignored i || dev_cov i || dev_greedy i || dev_expand i.
 
 Ltac use_wf i :=
   match goal with
   | O : origin i = ONode, W : cons_wf i = true |- _ =>
-    let W1 := fresh "W" in let W2 := fresh "W" in let W3 := fresh "W" in
-    destruct (wf_node_facts i O W) as [W1 [W2 W3]]
+    let W1 := fresh "W" in let W2 := fresh "W" in destruct (wf_node_facts i O W) as [W1 W2]
   | O : origin i = OEdge, W : cons_wf i = true |- _ =>
-    let W1 := fresh "W" in let W2 := fresh "W" in
-    let O' := fresh "O" in
-    assert (O' : origin i <> ONode) by congruence; destruct (wf_edge_facts i O' W) as [W1 W2]
+    let W1 := fresh "W" in let O' := fresh "O" in
+    assert (O' : origin i <> ONode) by congruence; pose proof (wf_edge_facts i O' W) as W1
   end.
 Ltac use_size :=
   repeat match goal with
          | E : negb (Nat.eqb _ 0) = true |- _ => apply eqb0_false in E
          end.
-Ltac use_k i :=
-  match goal with
-  | K : k_pos_int i = true |- _ => let K1 := fresh "K" in let K2 := fresh "K" in destruct (k_pos_facts i K) as [K1 K2]
-  end.
-
-Theorem validate_sound_kFlowDecomp i : validate_kFlowDecomp i = RaiseValueError -> in_domain_kFlowDecomp i = false.
-Proof.
-  intros H. destruct (in_domain_kFlowDecomp i) eqn:D; [exfalso|reflexivity].
-  unfold_dom. unfold validate_kFlowDecomp in H. destruct (origin i) eqn:O; bsimp; try discriminate;
-    split_dom D; use_size; norm_hyps; use_wf i; unfold_all; rw_in H; bsimp; fin H.
-Qed.
-
 Lemma cons_bad_edge i : origin i <> ONode -> cons_wf i = false -> check_cons (internal_cons i) = Some VE.
 Proof.
   intros O W. destruct (check_cons (internal_cons i)) as [o|] eqn:E.
@@ -437,65 +376,19 @@ Lemma cons_bad_node i : origin i = ONode -> cons_wf i = false -> dev_expand i = 
 Proof.
   intros O W V. unfold dev_expand in V. rewrite O in V.
   destruct (expand_cons (cons i)) as [o|] eqn:E.
-  - left. apply expand_outcomes in E as [->|[->| ->]]; auto; discriminate.
+  - left. apply expand_outcomes in E as [->| ->]; auto; discriminate.
   - right. split; auto. destruct (check_cons (internal_cons i)) as [o|] eqn:E2.
     + apply check_cons_ve in E2. subst. reflexivity.
     + assert (cons_wf i = true) by (apply cons_ok_node; auto). congruence.
 Qed.
-Lemma greedy_items_outcomes l o : greedy_items l = Some o -> o = VE \/ exists e, o = RaiseOther e.
-Proof.
-  induction l as [|a l IH]; cbn; [discriminate|].
-  destruct (it_kind a); try (intros [= <-]; eauto).
-  destruct (it_in_graph a); [exact IH|intros [= <-]; eauto].
-Qed.
-Lemma greedy_outcomes cs o : greedy_scan cs = Some o -> o = VE \/ exists e, o = RaiseOther e.
-Proof.
-  induction cs as [|c r IH]; cbn; [discriminate|].
-  destruct (greedy_items (c_items c)) eqn:E.
-  - intros [= <-]. eapply greedy_items_outcomes; eauto.
-  - destruct (c_greedy_ok c); [exact IH|discriminate].
-Qed.
-Lemma greedy_dev i : dev_greedy i = false -> ign_internal_empty i = true -> conserving i = true ->
-  greedy_scan (internal_cons i) = None \/ greedy_scan (internal_cons i) = Some VE.
-Proof.
-  unfold dev_greedy. intros V A B. rewrite A, B in V. cbn in V.
-  destruct (greedy_scan (internal_cons i)) as [o|] eqn:E; auto.
-  apply greedy_outcomes in E as [->|[e ->]]; auto. discriminate.
-Qed.
-
 Ltac split_dev V :=
   repeat match type of V with
          | _ || _ = false => let V1 := fresh "V" in let V2 := fresh "V" in apply orb_false_elim in V as [V1 V2]; split_dev V1; split_dev V2
          end.
-(* resolve the greedy step of kfd_core once the two flags are known *)
-Ltac do_greedy i :=
-  match goal with
-  | V : dev_greedy i = false |- _ =>
-    destruct (ign_internal_empty i) eqn:IE; destruct (conserving i) eqn:CO; bsimp;
-    [ let GR := fresh "GR" in destruct (greedy_dev i V IE CO) as [GR|GR]; rewrite ?GR | | | ]
-  end.
-
-Theorem validate_complete_kFlowDecomp i :
-  in_domain_kFlowDecomp i = false -> deviates_kFlowDecomp i = false -> validate_kFlowDecomp i = RaiseValueError.
-Proof.
-  intros D V. unfold deviates_kFlowDecomp in V. split_dev V.
-  unfold validate_kFlowDecomp. unfold_dom. destruct (origin i) eqn:O; bsimp; try reflexivity.
-  - assert (O' : origin i <> ONode) by congruence.
-    destruct (cons_wf i) eqn:W.
-    + use_wf i. unfold_all. unfold dev_cov in *. rw_goal. fing.
-    + pose proof (cons_bad_edge i O' W) as CB. unfold_all. unfold dev_cov in *. rw_goal. do_greedy i; rw_goal; fing.
-  - destruct (cons_wf i) eqn:W.
-    + use_wf i. unfold_all. unfold dev_cov in *. rw_goal. fing.
-    + destruct (cons_bad_node i O W V1) as [CB|[CB1 CB2]]; unfold_all; unfold dev_cov in *; rw_goal; do_greedy i; rw_goal; fing.
-Qed.
-
 Lemma all_in_map_true (l : list bool) : all_in (map (fun _ => true) l) = true.
 Proof. induction l; cbn; auto. Qed.
 Lemma is_nil_map {A B} (f : A -> B) l : is_nil (map f l) = is_nil l.
 Proof. destruct l; reflexivity. Qed.
-Lemma is_nil_all_in l : is_nil l = true -> all_in l = true.
-Proof. destruct l; cbn; auto; discriminate. Qed.
-
 Ltac use_bad i :=
   match goal with
   | O : origin i = ONode, W : cons_wf i = false, V : dev_expand i = false |- _ =>
@@ -506,139 +399,123 @@ Ltac use_bad i :=
     assert (O' : origin i <> ONode) by congruence; pose proof (cons_bad_edge i O' W) as CB
   end.
 Ltac prep_lists := rewrite ?all_in_map_true, ?is_nil_map in *.
-Ltac unfold_dev := unfold dev_cov, dev_k_nonint, dev_k_le0, dev_fooled in *.
+Ltac crunch :=
+  norm_hyps;
+  repeat (match goal with
+          | H : ?e = _ |- _ =>
+            lazymatch e with
+            | _ && _ => dleaf e
+            | _ || _ => dleaf e
+            end
+          end; bsimp; norm_hyps);
+  try discriminate; try reflexivity; try solve [clash].
+Ltac rw_origin i O :=
+  repeat match goal with H : context [origin i] |- _ => tryif constr_eq H O then fail else rewrite O in H end.
+Definition dev_noncons (i : input) := ign_internal_empty i && negb (conserving i).
 
 (* generic scripts *)
 Ltac sound_script i :=
   unfold_dom; unfold_all; destruct (origin i) eqn:O; bsimp; try discriminate;
-  match goal with D : _ = true |- _ => split_dom D end; use_size; norm_hyps; try use_wf i; try use_k i;
-  unfold fooled, no_src, no_snk in *; prep_lists;
-  match goal with H : _ = RaiseValueError |- _ => rw_in H; bsimp; try rewrite O in H; fin H end.
+  match goal with D : _ = true |- _ => split_dom D end; use_size; norm_hyps; try use_wf i;
+  prep_lists;
+  match goal with H : _ = RaiseValueError |- _ => rw_in H; bsimp; try rewrite O in H; fin H end; crunch.
 Ltac accept_script i :=
-  unfold_dom; unfold_all; destruct (origin i) eqn:O; bsimp; try discriminate;
-  match goal with D : _ = true |- _ => split_dom D end; use_size; norm_hyps; try use_wf i; try use_k i;
-  unfold fooled, no_src, no_snk in *; prep_lists; rw_goal; bsimp; fing.
+  unfold dev_noncons in *; unfold_dom; unfold_all; destruct (origin i) eqn:O; bsimp; try discriminate;
+  match goal with D : _ = true |- _ => split_dom D end; use_size; norm_hyps; try use_wf i;
+  rw_origin i O; prep_lists; rw_goal; bsimp; fing; crunch.
 Ltac complete_script i :=
-  unfold_dom; unfold_all; destruct (origin i) eqn:O; bsimp; try reflexivity;
+  unfold dev_noncons in *; unfold_dom; unfold_all; destruct (origin i) eqn:O; bsimp; try reflexivity;
   (destruct (cons_wf i) eqn:W; [use_wf i | use_bad i]);
-  unfold_dev; unfold fooled, no_src, no_snk in *; prep_lists; rw_goal; bsimp; fing.
+  rw_origin i O; prep_lists; rw_goal; bsimp; fing; crunch.
 
-Theorem accepts_domain_kFlowDecomp i :
-  in_domain_kFlowDecomp i = true -> has_live i = true -> validate_kFlowDecomp i = Accept.
-Proof.
-  intros D L. rewrite has_live_all_ignored in L. apply negb_true_iff in L. accept_script i.
-Qed.
-
-(* witnesses for the deviations of kFlowDecomp *)
+(* modifiers used for witnesses and examples *)
 Definition set_cons (i : input) (cs : list constr) (c : Q) : input :=
   {| nodes_str := nodes_str i; n_edges := n_edges i; acyclic := acyclic i; has_source := has_source i; has_sink := has_sink i;
-     src_fooled := src_fooled i; snk_fooled := snk_fooled i; origin := origin i; wtype := wtype i; elems := elems i;
+     origin := origin i; wtype := wtype i; elems := elems i;
      conserving := conserving i; k := k i; cons := cs; cov := c; starts := starts i; ends := ends i; ign := ign i;
      search_enters := search_enters i |}.
 Definition set_k (i : input) (kk : ktag) : input :=
   {| nodes_str := nodes_str i; n_edges := n_edges i; acyclic := acyclic i; has_source := has_source i; has_sink := has_sink i;
-     src_fooled := src_fooled i; snk_fooled := snk_fooled i; origin := origin i; wtype := wtype i; elems := elems i;
+     origin := origin i; wtype := wtype i; elems := elems i;
      conserving := conserving i; k := kk; cons := cons i; cov := cov i; starts := starts i; ends := ends i; ign := ign i;
      search_enters := search_enters i |}.
-Definition set_origin (i : input) (o : origin_tag) : input :=
+Definition set_origin (i : input) (o : origin_tag) (w : wtype_tag) : input :=
   {| nodes_str := nodes_str i; n_edges := n_edges i; acyclic := acyclic i; has_source := has_source i; has_sink := has_sink i;
-     src_fooled := src_fooled i; snk_fooled := snk_fooled i; origin := o; wtype := wtype i; elems := elems i;
+     origin := o; wtype := w; elems := elems i;
      conserving := conserving i; k := k i; cons := cons i; cov := cov i; starts := starts i; ends := ends i; ign := ign i;
      search_enters := search_enters i |}.
 Definition set_flags (i : input) (acy cons_ se : bool) (ns : list bool) : input :=
   {| nodes_str := ns; n_edges := n_edges i; acyclic := acy; has_source := has_source i; has_sink := has_sink i;
-     src_fooled := src_fooled i; snk_fooled := snk_fooled i; origin := origin i; wtype := wtype i; elems := elems i;
+     origin := origin i; wtype := wtype i; elems := elems i;
      conserving := cons_; k := k i; cons := cons i; cov := cov i; starts := starts i; ends := ends i; ign := ign i;
      search_enters := se |}.
+Definition set_elems (i : input) (es : list elem) (se : bool) : input :=
+  {| nodes_str := nodes_str i; n_edges := n_edges i; acyclic := acyclic i; has_source := has_source i; has_sink := has_sink i;
+     origin := origin i; wtype := wtype i; elems := es;
+     conserving := conserving i; k := k i; cons := cons i; cov := cov i; starts := starts i; ends := ends i; ign := ign i;
+     search_enters := se |}.
+Definition set_starts (i : input) (hs : bool) (sts : list bool) : input :=
+  {| nodes_str := nodes_str i; n_edges := n_edges i; acyclic := acyclic i; has_source := hs; has_sink := has_sink i;
+     origin := origin i; wtype := wtype i; elems := elems i;
+     conserving := conserving i; k := k i; cons := cons i; cov := cov i; starts := sts; ends := ends i; ign := ign i;
+     search_enters := search_enters i |}.
 Definition ex_dag : input := set_flags ex_graph true true true [true; true].
-Definition absent_edge_constraint := {| c_is_list := true; c_items := [ {| it_kind := IPair; it_in_graph := false |} ]; c_greedy_ok := true |}.
-Definition int_item_constraint := {| c_is_list := true; c_items := [ {| it_kind := IInt; it_in_graph := false |} ]; c_greedy_ok := true |}.
-Definition empty_constraint := {| c_is_list := true; c_items := []; c_greedy_ok := true |}.
+Definition neg_elem := {| e_w := WNeg; e_ign := false |}.
+Definition ign_elem := {| e_w := WPos; e_ign := true |}.
+Definition pair_then_int := [ {| c_is_list := true; c_items := [ {| it_kind := IPair; it_in_graph := true |}; {| it_kind := IInt; it_in_graph := false |} ] |} ].
 
-(* DESIGN #21: a constraint naming an absent edge -> KeyError from the greedy shortcut *)
-Theorem validate_kFlowDecomp_refuted_absent_edge :
-  exists i, in_domain_kFlowDecomp i = false /\ validate_kFlowDecomp i = RaiseOther EKey.
-Proof. exists (set_cons ex_dag [absent_edge_constraint] 1%Q). vm_compute. auto. Qed.
-Theorem validate_kFlowDecomp_refuted_malformed_item :
+(* ================================================================== kFlowDecomp *)
+Definition deviates_kFlowDecomp (i : input) := all_ignored i || dev_expand i.
+Theorem validate_sound_kFlowDecomp i : validate_kFlowDecomp i = RaiseValueError -> in_domain_kFlowDecomp i = false.
+Proof. intros H. destruct (in_domain_kFlowDecomp i) eqn:D; [exfalso|reflexivity]. sound_script i. Qed.
+Theorem validate_complete_kFlowDecomp i :
+  in_domain_kFlowDecomp i = false -> deviates_kFlowDecomp i = false -> validate_kFlowDecomp i = RaiseValueError.
+Proof. intros D V. unfold deviates_kFlowDecomp in V. split_dev V. complete_script i. Qed.
+Theorem accepts_domain_kFlowDecomp i :
+  in_domain_kFlowDecomp i = true -> has_live i = true -> validate_kFlowDecomp i = Accept.
+Proof. intros D L. rewrite has_live_all_ignored in L. apply negb_true_iff in L. accept_script i. Qed.
+(* still open: DESIGN #24 (every weighted element ignored) and the non-iterable constraint item in node mode *)
+Theorem validate_kFlowDecomp_refuted_all_ignored :
+  exists i, in_domain_kFlowDecomp i = false /\ validate_kFlowDecomp i = RaiseOther EOverflow.
+Proof. exists (set_origin (set_k (set_elems ex_dag [ign_elem] true) (KInt 0)) OEdge TInt). vm_compute. auto. Qed.
+Theorem validate_kFlowDecomp_refuted_non_tuple_item :
   exists i, in_domain_kFlowDecomp i = false /\ validate_kFlowDecomp i = RaiseOther EType.
-Proof. exists (set_cons ex_dag [int_item_constraint] 1%Q). vm_compute. auto. Qed.
-(* coverage 0 without constraints is accepted *)
-Theorem validate_kFlowDecomp_refuted_coverage :
-  exists i, in_domain_kFlowDecomp i = false /\ validate_kFlowDecomp i = Accept.
-Proof. exists (set_cons ex_dag [] 0%Q). vm_compute. auto. Qed.
-(* node mode, first constraint empty -> IndexError *)
-Theorem validate_kFlowDecomp_refuted_empty_constraint :
-  exists i, in_domain_kFlowDecomp i = false /\ validate_kFlowDecomp i = RaiseOther EIndex.
-Proof. exists (set_origin (set_cons ex_dag [empty_constraint] 1%Q) ONode). vm_compute. auto. Qed.
+Proof. exists (set_origin (set_cons ex_dag pair_then_int 1%Q) ONode TFloat). vm_compute. auto. Qed.
 
 (* ================================================================== MinFlowDecomp *)
-Definition deviates_MinFlowDecomp (i : input) :=
-  all_ignored i || dev_cov i || dev_greedy i || dev_expand i || negb (search_enters i).
-
-Theorem validate_sound_MinFlowDecomp i :
-  validate_MinFlowDecomp i = RaiseValueError -> in_domain_MinFlowDecomp i = false.
+Definition deviates_MinFlowDecomp (i : input) := all_ignored i || dev_expand i || negb (search_enters i).
+Theorem validate_sound_MinFlowDecomp i : validate_MinFlowDecomp i = RaiseValueError -> in_domain_MinFlowDecomp i = false.
 Proof.
   intros H. destruct (in_domain_MinFlowDecomp i) eqn:D; [exfalso|reflexivity].
-  sound_script i.
-  all: destruct (starts i), (ends i); cbn in *; try discriminate; fin H.
+  unfold_dom; unfold_all; destruct (origin i) eqn:O; bsimp; try discriminate;
+  split_dom D; use_size; norm_hyps; try use_wf i; prep_lists;
+  destruct (starts i), (ends i); cbn in *; try discriminate; rw_in H; bsimp; fin H; crunch.
 Qed.
-
 Theorem validate_complete_MinFlowDecomp i :
   in_domain_MinFlowDecomp i = false -> deviates_MinFlowDecomp i = false -> validate_MinFlowDecomp i = RaiseValueError.
 Proof.
   intros D V. unfold deviates_MinFlowDecomp in V. split_dev V. norm_hyps.
   unfold_dom; unfold_all; destruct (origin i) eqn:O; bsimp; try reflexivity;
   (destruct (cons_wf i) eqn:W; [use_wf i | use_bad i]);
-  unfold_dev; prep_lists; rw_goal; bsimp;
-  destruct (starts i) as [|s0 sl], (ends i) as [|e0 el]; bsimp; try reflexivity;
-  try (do_greedy i; rw_goal); fing.
+  prep_lists; rw_goal; bsimp;
+  destruct (starts i) as [|s0 sl], (ends i) as [|e0 el]; bsimp; try reflexivity; fing; crunch.
 Qed.
 Theorem accepts_domain_MinFlowDecomp i :
   in_domain_MinFlowDecomp i = true -> has_live i = true -> search_enters i = true -> validate_MinFlowDecomp i = Accept.
 Proof.
-  intros D L S.
-  rewrite has_live_all_ignored in L. apply negb_true_iff in L.
-  accept_script i.
-  all: destruct (starts i), (ends i); cbn in *; try discriminate; fing.
+  intros D L S. rewrite has_live_all_ignored in L. apply negb_true_iff in L.
+  unfold_dom; unfold_all; destruct (origin i) eqn:O; bsimp; try discriminate;
+  split_dom D; use_size; norm_hyps; try use_wf i; prep_lists;
+  destruct (starts i), (ends i); cbn in *; try discriminate; rw_goal; bsimp; fing; crunch.
 Qed.
-(* the k-loop `range(lb, number_of_edges())` is empty: nothing is validated, the model is just unsolved *)
-Definition neg_elem := {| e_w := WNeg; e_ign := false |}.
-Definition set_elems (i : input) (es : list elem) (se : bool) : input :=
-  {| nodes_str := nodes_str i; n_edges := n_edges i; acyclic := acyclic i; has_source := has_source i; has_sink := has_sink i;
-     src_fooled := src_fooled i; snk_fooled := snk_fooled i; origin := origin i; wtype := wtype i; elems := es;
-     conserving := conserving i; k := k i; cons := cons i; cov := cov i; starts := starts i; ends := ends i; ign := ign i;
-     search_enters := se |}.
-Theorem validate_MinFlowDecomp_refuted_empty_search :
-  exists i, in_domain_MinFlowDecomp i = false /\ validate_MinFlowDecomp i = AcceptsButUnsolved.
-Proof. exists (set_elems ex_dag [neg_elem] false). vm_compute. auto. Qed.
-Theorem accepts_domain_MinFlowDecomp_refuted_empty_search :
-  exists i, in_domain_MinFlowDecomp i = true /\ has_live i = true /\ validate_MinFlowDecomp i = AcceptsButUnsolved.
-Proof. exists (set_elems ex_dag (elems ex_dag) false). vm_compute. auto. Qed.
 
 (* ================================================================== kMinPathError / kLeastAbsErrors *)
-Definition deviates_kErrDAG (i : input) :=
-  all_ignored i || dev_cov i || dev_expand i || dev_k_nonint i || dev_k_le0 i.
+Definition deviates_kErrDAG (i : input) := all_ignored i || dev_expand i.
 Theorem validate_sound_kErrDAG i : validate_kErrDAG i = RaiseValueError -> in_domain_kErrDAG i = false.
-Proof.
-  intros H. destruct (in_domain_kErrDAG i) eqn:D; [exfalso|reflexivity]. sound_script i.
-Qed.
+Proof. intros H. destruct (in_domain_kErrDAG i) eqn:D; [exfalso|reflexivity]. sound_script i. Qed.
 Theorem validate_complete_kErrDAG i :
   in_domain_kErrDAG i = false -> deviates_kErrDAG i = false -> validate_kErrDAG i = RaiseValueError.
-Proof.
-  intros D V. unfold deviates_kErrDAG in V. split_dev V. norm_hyps.
-  assert (K : k_pos_int i = true) by (apply k_pos_from; unfold dev_k_nonint, dev_k_le0 in *; norm_hyps; assumption).
-  complete_script i.
-Qed.
+Proof. intros D V. unfold deviates_kErrDAG in V. split_dev V. complete_script i. Qed.
 Theorem accepts_domain_kErrDAG i :
   in_domain_kErrDAG i = true -> has_live i = true -> validate_kErrDAG i = Accept.
-Proof.
-  intros D L. rewrite has_live_all_ignored in L. apply negb_true_iff in L. accept_script i.
-Qed.
-(* DESIGN #17: k = 0 -> UnboundLocalError;  non-integer k -> TypeError *)
-Theorem validate_kErrDAG_refuted_k0 :
-  exists i, in_domain_kErrDAG i = false /\ validate_kErrDAG i = RaiseOther EUnboundLocal.
-Proof. exists (set_k ex_dag (KInt 0)). vm_compute. auto. Qed.
-Theorem validate_kErrDAG_refuted_k_float :
-  exists i, in_domain_kErrDAG i = false /\ validate_kErrDAG i = RaiseOther EType.
-Proof. exists (set_k ex_dag (KNonInt (5#2))). vm_compute. auto. Qed.
-
+Proof. intros D L. rewrite has_live_all_ignored in L. apply negb_true_iff in L. accept_script i. Qed.
